@@ -100,7 +100,12 @@ def build_props(pid, timeout):
                 os.remove(os.path.join(COQ, "props", pid + ext))
             except FileNotFoundError:
                 pass
-        rc, out = run(["make", "-j16", target], cwd=COQ, timeout=timeout)
+        targets = [target]
+        # the judge module evaluated by the case shards must be up to date with the model as well
+        jm = re.match(r"CDI\.(\w+)\.", PROPS.get(pid, {}).get("judge", ""))
+        if jm and os.path.exists(os.path.join(COQ, "theories", jm.group(1) + ".v")):
+            targets.append("theories/%s.vo" % jm.group(1))
+        rc, out = run(["make", "-j16"] + targets, cwd=COQ, timeout=timeout)
     src = open(os.path.join(COQ, "props", pid + ".v")).read()
     n_print = len(re.findall(r"^\s*Print Assumptions", src, re.M))
     closed = out.count("Closed under the global context")
